@@ -51,7 +51,7 @@ def filters(chk, prop):
             if ex_.check(res != spec):
                 o.verdict = 'violated'
                 o.model = common.model_dict(ex_.solver.model(), {'res': E.res, 'top': E.top, 'fe': E.fe, 're': E.re, 'sc': E.sc.sc,
-                                                                 'step': E.sc.step, 'hook': E.sc.hook, 'ret': E.sc.ret, 'cur': E.sc.cur, 'left': E.sc.left, 'returned': res})
+                                                                 'step': E.sc.step, 'hook': E.sc.hook, 'ret': E.sc.ret, 'cur': E.sc.cur, 'left': E.sc.left, 'err': E.sc.err, 'returned': res})
                 o.detail = 'filter accepts a different set of events'
         ex.explore(run, on_end)
         if o.verdict == 'violated':
@@ -104,7 +104,7 @@ def confirm_filter(chk, o, prop, which, ix):
                     ev = ('ev hook after %s ' % inv(ix.Hook)[m['hook']].lower()) + rtok
                 elif sc in ('Background', 'Step'):
                     k = inv(ix.Step)[m['step']].lower()
-                    ev = ('ev %s 0 %s%s ' % ('bg' if sc == 'Background' else 'step', k, ' panic' if k == 'failed' else '')) + rtok
+                    ev = ('ev %s 0 %s%s ' % ('bg' if sc == 'Background' else 'step', k, (' ' + {ix.Err['NotFound']: 'notfound', ix.Err['AmbiguousMatch']: 'ambiguous'}.get(m.get('err'), 'panic')) if k == 'failed' else '')) + rtok
     if ev is None:
         o.verdict = 'inconclusive'
         o.detail += ' | counterexample item not scriptable'
